@@ -30,7 +30,11 @@ TRUSTED = ["Spec.Quad.integral as the meaning of the integral: open 3-point Newt
 ASSUMPTIONS = ["forecasts / observations / end points are multiples of 1/2 or 1/4 of small magnitude (float + - * and comparisons "
                "exact); quotients by (b-a), (d-c), 3 compared to 1e-9", "NaN end points are not generated",
                "fcst and obs carry the same coordinates in the same stored order (F11 belongs to C04)",
-               "float rounding is not modelled"]
+               "float rounding is not modelled",
+               "storage dtypes: forecasts / observations stored as int64 / int32 / int16 / int8 / float32 / mixed hold values exactly "
+               "representable in the dtype; the model value is that exact number (int64 7 = 7, float32 0.5 = 1/2); magnitudes <= 7 "
+               "(int8) / <= 12 in the regular typed batches; narrow integers near the limits of their dtype only in the batch "
+               "narrow-int-dtype-range (notes/C10.md O3); float32 END POINTS and unsigned dtypes are not generated"]
 MANIFEST = dict(
     level="proof",
     text="Kernel-checked Lean theorems about definitions regenerated on every run from threshold_weighted_impl.py (_g_j_rect, _phi_j_rect, "
@@ -62,8 +66,10 @@ MANIFEST = dict(
 RULE = ("cases (x, y, weight shape, end points, alpha, huber parameter): exhaustive over a 7-point lattice for x, y and every "
         "increasing choice of finite / infinite end points from it (all 9 / 25 relative positions incl. equalities), then random "
         "dyadic batches with 50% of values copied from an end point or from the other operand, end points as scalars or as "
-        "arrays over one or both dimensions; distinct = distinct (x, y, shape, end points, parameters); non-trivial = x, y not NaN "
-        "and not in the malformed stream")
+        "arrays over one or both dimensions; typed batches: the same with forecasts / observations stored as int64 / int32 / int16 / "
+        "int8 / float32 / mixed pairs (integers 0..6 x 8 non-integer weights exhaustively, then random, end points on the quarter "
+        "grid, integer-valued ones also as Python int / int64 arrays); distinct = distinct (x, y, shape, end points, parameters, "
+        "storage dtypes); non-trivial = x, y not NaN and not in the malformed stream")
 
 NAN = float("nan")
 INF = float("inf")
@@ -84,14 +90,21 @@ def S(x):
 # a configuration: {"shape": "rect"|"trap", "ends": [e...], "dims": [d...]}; ends[i] is a float (scalar end point) or a
 # nested list (array end point) whose dimensions are dims[i] (subset of ("s","k")).  rect: ends = [a, b];
 # trap: ends = [a, b, c, d] with interval_where_positive = (a, d), interval_where_one = (b, c).
-def as_arg(e, dims):
+def as_arg(e, dims, int_forms=False):
+    """int_forms: an integer-valued finite end point is passed as a Python int (scalar) / an int64 array (all entries
+    integer-valued and finite) instead of float / float64 — the same VALUE in another type"""
     if isinstance(e, list):
-        return xr.DataArray(np.array(e, dtype=float), dims=list(dims))
+        a = np.array(e, dtype=float)
+        if int_forms and np.all(np.isfinite(a)) and np.all(a == np.round(a)):
+            a = a.astype("int64")
+        return xr.DataArray(a, dims=list(dims))
+    if int_forms and math.isfinite(e) and float(e) == round(e):
+        return int(e)
     return e
 
 
 def tw_args(cfg):
-    ends = [as_arg(e, d) for e, d in zip(cfg["ends"], cfg["dims"])]
+    ends = [as_arg(e, d, cfg.get("int_forms", False)) for e, d in zip(cfg["ends"], cfg["dims"])]
     if cfg["shape"] == "rect":
         return (ends[0], ends[1]), None
     return (ends[1], ends[2]), (ends[0], ends[3])
@@ -117,8 +130,15 @@ def broadcast_ends(cfg, shape):
     return np.stack(cols, axis=-1)
 
 
-def da(arr):
-    return xr.DataArray(np.array(arr, dtype=float), dims=["s", "k"])
+def da(arr, dtype=None):
+    """dtype: storage dtype of the array; the VALUES must be exactly representable in it (asserted)"""
+    a = np.array(arr, dtype=float)
+    if dtype is not None and dtype != "float64":
+        t = a.astype(dtype)
+        if not np.array_equal(t.astype(float), a, equal_nan=True):
+            raise AssertionError(f"harness: values {a.tolist()} are not exactly representable as {dtype}")
+        a = t
+    return xr.DataArray(a, dims=["s", "k"])
 
 
 def call_tw(name, fc, ob, cfg, alpha, huber, **kw):
@@ -133,9 +153,9 @@ def call_tw(name, fc, ob, cfg, alpha, huber, **kw):
     return getattr(sc, name)(*args, interval_where_one=one, interval_where_positive=pos, **kw)
 
 
-def impl_all(fc, ob, cfg, alpha, huber, names=FUNCS):
+def impl_all(fc, ob, cfg, alpha, huber, names=FUNCS, dtypes=None):
     out = {}
-    f, o = da(fc), da(ob)
+    f, o = (da(fc), da(ob)) if dtypes is None else (da(fc, dtypes[0]), da(ob, dtypes[1]))
     with np.errstate(all="ignore"):
         for n in names:
             try:
@@ -355,16 +375,20 @@ def position_tag(e_row, x, y):
 
 
 # ------------------------------------------------------------------------------------------------ comparison
-def compare_batch(ctx, batch, kind, cfg, fc, ob, alpha, huber, impl, expected, forms_tag="scalar", malformed=False):
+def compare_batch(ctx, batch, kind, cfg, fc, ob, alpha, huber, impl, expected, forms_tag="scalar", malformed=False,
+                  extra=None, tagger=None):
     """expected: either {"err": ...} for the whole batch, or per function a list of protocol strings / {"err":...};
-    entries may be None (no expectation, e.g. NaN input handled by the model only)"""
+    entries may be None (no expectation, e.g. NaN input handled by the model only).
+    extra: further fields of the case (storage dtypes, integer end-point forms), recorded in every case / failure and in the
+    tags; tagger(i, function) -> further tags of a value failure at position i"""
+    extra = dict(extra or {})
     fc = np.asarray(fc, dtype=float)
     ob = np.asarray(ob, dtype=float)
     e = broadcast_ends(cfg, fc.shape).reshape(-1, len(cfg["ends"]))
     xs, ys = fc.ravel(), ob.ravel()
     whole_err = isinstance(expected, dict) and "err" in expected
     for i in range(len(xs)):
-        ctx.case(batch, desc_case(cfg, e[i], xs[i], ys[i], alpha, huber),
+        ctx.case(batch, dict(desc_case(cfg, e[i], xs[i], ys[i], alpha, huber), **extra),
                  nontrivial=not (malformed or math.isnan(xs[i]) or math.isnan(ys[i])))
         ctx.tag(cfg["shape"] + ":" + position_tag(e[i], xs[i], ys[i]))
     ctx.tag("ends:" + forms_tag)
@@ -378,16 +402,16 @@ def compare_batch(ctx, batch, kind, cfg, fc, ob, alpha, huber, impl, expected, f
         if isinstance(exp, dict) and "err" in exp:
             if isinstance(got, Exception) and core.exc_class(got) == exp["err"]:
                 continue
-            ctx.fail(batch, kind, n, "missing-" + exp["err"], {"cfg": cfg, "fcst": fc.tolist(), "obs": ob.tolist(),
-                                                              "alpha": alpha, "huber": huber},
+            ctx.fail(batch, kind, n, "missing-" + exp["err"], dict({"cfg": cfg, "fcst": fc.tolist(), "obs": ob.tolist(),
+                                                                   "alpha": alpha, "huber": huber}, **extra),
                      observed=core.exc_class(got) if isinstance(got, Exception) else "a value", expected=exp["err"],
-                     tags={"function": n, "shape": cfg["shape"], "ends": forms_tag})
+                     tags=dict({"function": n, "shape": cfg["shape"], "ends": forms_tag}, **extra))
             continue
         if isinstance(got, Exception):
             ctx.fail(batch, kind, n, "exception:" + type(got).__name__,
-                     {"cfg": cfg, "fcst": fc.tolist(), "obs": ob.tolist(), "alpha": alpha, "huber": huber},
+                     dict({"cfg": cfg, "fcst": fc.tolist(), "obs": ob.tolist(), "alpha": alpha, "huber": huber}, **extra),
                      observed=f"{type(got).__name__}: {got}"[:200], expected="values",
-                     tags={"function": n, "shape": cfg["shape"], "ends": forms_tag})
+                     tags=dict({"function": n, "shape": cfg["shape"], "ends": forms_tag}, **extra))
             continue
         g = got.ravel()
         for i in range(len(xs)):
@@ -395,12 +419,14 @@ def compare_batch(ctx, batch, kind, cfg, fc, ob, alpha, huber, impl, expected, f
                 continue
             if not core.close(g[i], exp[i]):
                 ctx.fail(batch, kind, n, "value", dict(desc_case(cfg, e[i], xs[i], ys[i], alpha, huber), function=n,
-                                                       ends_given_as=forms_tag),
+                                                       ends_given_as=forms_tag, **extra),
                          observed=float(g[i]), expected=exp[i],
-                         tags={"function": n, "shape": cfg["shape"], "ends": forms_tag,
-                               "position": position_tag(e[i], xs[i], ys[i])},
+                         tags=dict({"function": n, "shape": cfg["shape"], "ends": forms_tag,
+                                    "position": position_tag(e[i], xs[i], ys[i])}, **extra,
+                                   **(tagger(i, n) if tagger else {})),
                          theorem=THEOREM_OF.get(n, "").replace("rect", cfg["shape"]))
-                break
+                if tagger is None:      # with per-position tags every failing position is reported
+                    break
 
 
 def forms_of(cfg):
@@ -835,12 +861,335 @@ def oracle_mixed(ctx):
                          expected=exp[nme].tolist(), tags={"function": nme, "endpoint_forms": form})
 
 
+# ------------------------------------------------------------------------------------------------ storage dtypes
+# The scores are functions of the VALUES of forecasts / observations: a forecast stored as int64 7, int8 7 or float32 7.0
+# has the model value 7, and the expected score is the Lean Spec integral at that exact value.  End points stay what the
+# caller passed (Python float / int, float64 / int64 arrays) and are mostly NOT integers.
+INT_DTYPES = ["int64", "int32", "int16", "int8"]
+DTYPE_PAIRS = [("int64", "int64"), ("int32", "int32"), ("int8", "int8"), ("int16", "int16"), ("float32", "float32"),
+               ("int64", "float64"), ("float64", "int32"), ("int32", "int64"), ("int8", "float32"), ("float32", "int64"),
+               ("int8", "int64"), ("float32", "float64"), ("int16", "int32")]
+PHI_FUNCS = ("tw_squared_error", "tw_expectile_score", "tw_huber_loss")
+INT_DEFECT = "C10-narrow-int-overflow"
+
+
+def is_int_dtype(dt):
+    return dt.startswith("int")
+
+
+def small_limit(dt):
+    """magnitude bound of the generated data for which no intermediate of the library (2 * x**2, obs - fcst, data max + 1)
+    leaves the storage dtype: int8 holds 2 * 7**2 = 98"""
+    return 7 if dt == "int8" else 12
+
+
+def shift_ends(cfg, delta):
+    sh = lambda v: [sh(u) for u in v] if isinstance(v, list) else (v + delta if math.isfinite(v) else v)
+    return dict(cfg, ends=[sh(e) for e in cfg["ends"]])
+
+
+def gen_cfg_nonint(rng, shape, Sn, Kn):
+    """end points (scalar / array / mixed, finite / infinite) on the half and quarter grid: mostly not integers"""
+    cfg = gen_cfg(rng, shape, Sn, Kn)
+    r = rng.random()
+    if r < 0.45:
+        cfg = shift_ends(cfg, rng.choice([0.25, -0.25, 0.5]))
+    elif r < 0.6:
+        cfg = dict(cfg, int_forms=True)     # integer-valued end points as Python int / int64 arrays
+    return cfg
+
+
+def typed_value(rng, dt, pool):
+    lim = small_limit(dt)
+    if pool and rng.random() < 0.45:
+        v = rng.choice(pool)
+        if is_int_dtype(dt):
+            v = float(rng.choice([math.floor(v), math.ceil(v)]))
+        return max(-float(lim), min(float(lim), v))
+    return float(rng.randint(-lim, lim)) if is_int_dtype(dt) else rng.randint(-4 * lim, 4 * lim) / 4
+
+
+def gen_data_typed(rng, cfg, Sn, Kn, fdt, odt):
+    """values exactly representable in the storage dtypes; 45% next to / on an end point, 15% fcst == obs"""
+    pool = [v for v in finite_ends(cfg) if abs(v) <= 16]
+    fc, ob = np.zeros((Sn, Kn)), np.zeros((Sn, Kn))
+    for i in range(Sn):
+        for k in range(Kn):
+            x = typed_value(rng, fdt, pool)
+            y = typed_value(rng, odt, pool)
+            if rng.random() < 0.15:
+                if not is_int_dtype(odt) or x == round(x):
+                    y = x
+                elif not is_int_dtype(fdt) or y == round(y):
+                    x = y
+            fc[i, k], ob[i, k] = x, y
+    return fc, ob
+
+
+def dtype_extra(cfg, fdt, odt):
+    ex = {"fcst_dtype": fdt, "obs_dtype": odt}
+    if cfg.get("int_forms"):
+        ex["int_forms"] = True
+    return ex
+
+
+INT_LATTICE = [float(v) for v in range(0, 7)]
+INT_LATTICE_ENDS = {"rect": [[1.5, 3.5], [-INF, 3.5], [1.5, INF], [2.25, 5.25]],
+                    "trap": [[0.5, 1.5, 3.5, 5.25], [-INF, -INF, 3.5, 5.25], [0.5, 1.5, INF, INF], [1.25, 1.5, 3.75, 4.5]]}
+
+
+def oracle_dtypes(ctx, boost):
+    """tw_* on forecasts / observations STORED as int64 / int32 / int16 / int8 / float32 / mixed = Lean Spec integral at the
+    same exact values, with non-integer, infinite, scalar and array end points"""
+    rng = ctx.rng
+    # (i) exhaustive: integer lattice 0..6 for x and y, the fixed non-integer weights, every all-integer storage pair.
+    #     One call per shape carries all its weights: row = (weight, x), column = y, end points as arrays over "s";
+    #     the first weight of each shape also with scalar end points.
+    L = len(INT_LATTICE)
+    lat = []
+    for shape in ("rect", "trap"):
+        ws = INT_LATTICE_ENDS[shape]
+        n = len(ws[0])
+        packed = {"shape": shape, "ends": [[w[j] for w in ws for _ in range(L)] for j in range(n)], "dims": [("s",)] * n}
+        px = np.array([[x for _ in INT_LATTICE] for _ in ws for x in INT_LATTICE])
+        py = np.array([[y for y in INT_LATTICE] for _ in ws for _ in INT_LATTICE])
+        lat.append((packed, px, py, 0.25, 0.75, "all"))
+        lat.append(({"shape": shape, "ends": list(ws[0]), "dims": [()] * n}, px[:L], py[:L], 0.75, 0.5, "int64"))
+    cases = [c[:5] for c in lat]
+    metas = [c[5] for c in lat]
+    ctx.exhaustive.append(f"storage dtypes: x, y over the integers 0..6 x {sum(len(v) for v in INT_LATTICE_ENDS.values())} weights with "
+                          f"non-integer / infinite end points x storage pairs {INT_DTYPES} (fcst) x same / wider (obs), 5 scores each")
+    # (ii) random typed batches
+    nb = ctx.n(len(DTYPE_PAIRS) + 7, 300) * (3 if boost else 1)
+    for it in range(nb):
+        shape = rng.choice(["rect", "trap"])
+        Sn, Kn = rng.choice([(1, 1), (1, 4), (2, 3), (3, 2), (3, 3), (3, 4), (4, 3)])
+        fdt, odt = DTYPE_PAIRS[it] if it < len(DTYPE_PAIRS) else rng.choice(DTYPE_PAIRS[:5] + DTYPE_PAIRS)   # all-integer pairs twice as likely
+        cfg = gen_cfg_nonint(rng, shape, Sn, Kn)
+        fc, ob = gen_data_typed(rng, cfg, Sn, Kn, fdt, odt)
+        cases.append((cfg, fc, ob, rng.choice(ALPHAS), rng.choice(HUBERS)))
+        metas.append((fdt, odt))
+    exp = spec_expected(ctx, cases)
+    for (cfg, fc, ob, alpha, huber), e, meta in zip(cases, exp, metas):
+        if meta == "all":
+            pairs = [(d, d) for d in INT_DTYPES] + [("int32", "int64"), ("int8", "int16")]
+            if not (ctx.thorough or boost):      # quick: int64 always, two of the other pairs
+                pairs = pairs[:1] + rng.sample(pairs[1:], 2)
+        elif meta == "int64":
+            pairs = [("int64", "int64")]
+        else:
+            pairs = [meta]
+        for fdt, odt in pairs:
+            impl = impl_all(fc, ob, cfg, alpha, huber, dtypes=(fdt, odt))
+            ctx.tag(f"storage:{fdt}/{odt}")
+            compare_batch(ctx, "typed-storage-vs-integral-spec", "property", cfg, fc, ob, alpha, huber, impl, e,
+                          forms_tag=forms_of(cfg), extra=dtype_extra(cfg, fdt, odt))
+
+
+def cons_call(fn, f, o, p, g, phi, phi_prime):
+    import scores.continuous as sc
+    if fn == "quantile":
+        return sc.consistent_quantile_score(f, o, p, g, preserve_dims="all")
+    if fn == "expectile":
+        return sc.consistent_expectile_score(f, o, p, phi, phi_prime, preserve_dims="all")
+    return sc.consistent_huber_score(f, o, p, phi, phi_prime, preserve_dims="all")
+
+
+CONS_SPEC = {"quantile": ("tw_quantile_score", 1), "expectile": ("tw_expectile_score", 2), "huber": ("tw_huber_loss", 2)}
+
+
+def typed_1d(vals, dt):
+    return da([vals], dt).isel(s=0)
+
+
+def cons_typed_eval(case):
+    """the consistent_* score of one recorded typed case and, for a menu family, of the same values stored as float64"""
+    import functools
+    from scores.continuous import threshold_weighted_impl as twi
+    fn, fam, p = case["fn"], case["fam"], float(case["param"])
+    if fam in ("w-rect", "w-trap"):
+        # 0-d float64 arrays, as `_auxiliary_funcs` builds them (a bare Python float would make float32 data compute in float32)
+        ends = [xr.DataArray(float(Fraction(v))) for v in case["ends"]]
+        if fam == "w-rect":
+            fns = [functools.partial(h, *ends) for h in (twi._g_j_rect, twi._phi_j_rect, twi._phi_j_prime_rect)]
+        else:
+            fns = [functools.partial(h, *ends) for h in (twi._g_j_trap, twi._phi_j_trap, twi._phi_j_prime_trap)]
+    else:
+        gm, pm = menu_funcs()
+        fns = [gm.get(fam), pm.get(fam, (None, None))[0], pm.get(fam, (None, None))[1]]
+    def run(dts):
+        try:
+            with np.errstate(all="ignore"):
+                r = cons_call(fn, typed_1d(case["fcst"], dts[0]), typed_1d(case["obs"], dts[1]), p, *fns)
+            return np.asarray(r.values, dtype=float), str(r.dtype)
+        except Exception as ex:  # noqa: BLE001
+            return ex, ""
+    got, got_dtype = run((case["fcst_dtype"], case["obs_dtype"]))
+    # the weight families are compared with the Spec, not with a float64 run
+    ref = None if fam in ("w-rect", "w-trap") else run(("float64", "float64"))[0]
+    return got, got_dtype, ref
+
+
+def cons_typed_check(ctx, case, spec_rows):
+    """spec_rows: per position the c10.spec result (weight families) or None (menu families: typed run = float64 run).
+    Returns True iff a failure was recorded."""
+    fn, fam = case["fn"], case["fam"]
+    site = f"consistent_{fn}_score"
+    got, got_dtype, ref = cons_typed_eval(case)
+    tags = {"function": fn, "fam": fam, "fcst_dtype": case["fcst_dtype"], "obs_dtype": case["obs_dtype"]}
+    if isinstance(got, Exception):
+        ctx.fail("consistent-typed-storage", "property", site, "exception:" + type(got).__name__, case, observed=str(got)[:200],
+                 expected="values", tags=tags)
+        return True
+    if spec_rows is not None:
+        key, factor = CONS_SPEC[fn]
+        for i, row in enumerate(spec_rows):
+            want = factor * core.parse_fl(row[key])
+            if not core.close(got[i], want):
+                ctx.fail("consistent-typed-storage", "property", site, "typed-value-differs-from-weighted-integral", dict(case, position=i),
+                         observed=float(got[i]), expected=S(want), tags=tags, theorem=THEOREM_OF[key].replace("rect", fam[2:]))
+                return True
+        return False
+    rtol, atol = 1e-9, 1e-12
+    if got_dtype == "float32" and not isinstance(ref, Exception):
+        # float32 data through the CALLER's g / phi gives a float32 result: rounding at 6e-8 of the largest term is numpy's
+        # documented behaviour, not modelled; a truncated value is off by O(0.1)
+        ctx.tag("consistent-typed:float32-result")
+        rtol, atol = 1e-5, 1e-5 * max(1.0, float(np.max(np.abs(ref))))
+    if isinstance(ref, Exception) or not all(core.close_ff(u, v, rtol=rtol, atol=atol) for u, v in zip(got, ref)):
+        ctx.fail("consistent-typed-storage", "property", site, "storage-dtype-changes-score", case, observed=got.tolist(),
+                 expected=str(ref)[:200] if isinstance(ref, Exception) else ref.tolist(), tags=tags)
+        return True
+    return False
+
+
+def oracle_consistent_dtypes(ctx, boost):
+    """consistent_* on typed storage: with g / phi / phi' of a rectangular or trapezoidal weight with NON-integer end points the
+    value is the Lean Spec integral (x 1, 2, 2); with the menu families the value equals that of the same values in float64"""
+    rng = ctx.rng
+    gm, pm = menu_funcs()
+    todo, ops = [], []
+    for it in range(ctx.n(30, 300) * (3 if boost else 1)):
+        fn = rng.choice(["quantile", "expectile", "huber"])
+        fdt, odt = DTYPE_PAIRS[it % len(DTYPE_PAIRS)]
+        p = rng.choice(HUBERS) if fn == "huber" else rng.choice(ALPHAS)
+        n = rng.randint(2, 6)
+        narrow = "int8" in (fdt, odt)
+        if rng.random() < 0.6:
+            fam = rng.choice(["w-rect", "w-trap"])
+            # distinct integers + 0 / 1/4 / 1/2: strictly increasing, mostly not integers
+            ends = [v + rng.choice([0.0, 0.25, 0.5, 0.5]) for v in draw_sorted(rng, 2 if fam == "w-rect" else 4, lo=-3, hi=6, den=1)]
+            pool = ends
+        else:
+            fams = list(gm if fn == "quantile" else pm)
+            if narrow or "int16" in (fdt, odt):
+                fams = [f for f in fams if f != "quart"]      # the CALLER's x**4 / 4*x**3 in int8 / int16 is the caller's business
+            fam, ends, pool = rng.choice(fams), None, []
+        lim = 3 if (narrow and ends is None) else (6 if ends is None else None)
+        def val(dt):
+            if lim is None:
+                return typed_value(rng, dt, pool)
+            return float(rng.randint(-lim, lim)) if is_int_dtype(dt) else rng.randint(-4 * lim, 4 * lim) / 4
+        fc = [val(fdt) for _ in range(n)]
+        ob = [fc[i] if (rng.random() < 0.25 and (not is_int_dtype(odt) or fc[i] == round(fc[i]))) else val(odt) for i in range(n)]
+        case = {"fn": fn, "fam": fam, "fcst": fc, "obs": ob, "param": p, "fcst_dtype": fdt, "obs_dtype": odt}
+        if ends is not None:
+            case["ends"] = [S(v) for v in ends]
+            for x, y in zip(fc, ob):
+                ops.append({"op": "c10.spec", "args": {"shape": fam[2:], "ends": case["ends"], "x": S(x), "y": S(y),
+                                                       "alpha": S(p if fn != "huber" else 0.5), "huber": S(p if fn == "huber" else 1.0)}})
+        todo.append(case)
+    res = core.run_driver("C10spec", ops)
+    k = 0
+    for case in todo:
+        rows = None
+        if "ends" in case:
+            rows = res[k:k + len(case["fcst"])]; k += len(case["fcst"])
+        ctx.case("consistent-typed-storage", case)
+        ctx.tag(f"consistent-storage:{case['fcst_dtype']}/{case['obs_dtype']}")
+        ctx.tag("consistent-typed:" + case["fn"] + ":" + ("weight" if rows is not None else "menu"))
+        cons_typed_check(ctx, case, rows)
+
+
+# ---- values at the edge of a narrow integer dtype (candidate defect, notes/C10.md "O3"): the library evaluates `2 * x**2`
+# (_phi_j_trap), the stand-ins `data max + 1` / `data min - 1` of the trapezoidal branch and `obs - fcst` / `fcst - obs`
+# (consistent_expectile_score / consistent_huber_score) in the storage dtype of the data, where they wrap around.
+def int_overflow_sites(cfg, fc, ob, dt):
+    """per position and function: which of the three integer intermediates leave the dtype `dt` (both arrays stored as dt)"""
+    info = np.iinfo(dt)
+    fits = lambda v: info.min <= v <= info.max
+    ends = broadcast_ends(cfg, fc.shape)
+    data = [int(v) for v in np.concatenate([fc.ravel(), ob.ravel()])]
+    stand_in = cfg["shape"] == "trap" and ((np.any(ends[..., 2] == INF) and max(data) == info.max) or
+                                           (np.any(ends[..., 1] == -INF) and min(data) == info.min))
+    out = []
+    for x, y in zip(fc.ravel(), ob.ravel()):
+        x, y = int(x), int(y)
+        sq = cfg["shape"] == "trap" and not (fits(2 * x * x) and fits(2 * y * y))
+        diff = not (fits(x - y) and fits(y - x))
+        out.append({"stand-in": bool(stand_in), "square": bool(sq), "difference": bool(diff)})
+    return out
+
+
+def oracle_int_range(ctx, boost):
+    """int8 / int16 / int32 data up to the limits of the dtype; failures at positions where an integer intermediate provably
+    leaves the dtype are tagged defect=C10-narrow-int-overflow (candidate finding), every other position must agree"""
+    rng = ctx.rng
+    cases, metas = [], []
+    for it in range(ctx.n(9, 60) * (2 if boost else 1)):
+        dt = ["int8", "int16", "int32"][it % 3]
+        info = np.iinfo(dt)
+        shape = rng.choice(["rect", "trap", "trap"])
+        if dt == "int32" and shape == "trap":
+            # float64 stays exact next to 2 * 50000**2 only if no `/ 3` term is inexact: ramps of width 3/2, left end finite
+            a0, gap = rng.randint(-4, 2) + 0.5, rng.randint(2, 5)
+            e = [a0, a0 + 1.5, a0 + 1.5 + gap, a0 + 3.0 + gap] if rng.random() < 0.4 else [a0, a0 + 1.5, INF, INF]
+        else:
+            e = [v + 0.5 if math.isfinite(v) else v for v in gen_scalar_ends(rng, shape)]
+        cfg = {"shape": shape, "ends": e, "dims": [()] * len(e)}
+        # int8: the whole range of the dtype.  int16 / int32: beyond the square root of the dtype's range, but small enough for
+        # every float64 intermediate (stand-in products, squares, cubes) to stay exact to 1e-9
+        menu = {"int8": [info.max, info.max - 1, info.min, info.min + 1, 12, -12, 15, 8, -8],
+                "int16": [200, -200, 203, 150, 128, -129], "int32": [50000, -50000, 50003, 40000, 32768, -32769]}[dt] + [0, 1, -2, 3, 5]
+        n = rng.randint(2, 4)
+        fc = np.array([[float(rng.choice(menu)) for _ in range(n)]])
+        ob = np.array([[float(fc[0, i] if rng.random() < 0.15 else rng.choice(menu)) for i in range(n)]])
+        cases.append((cfg, fc, ob, rng.choice(ALPHAS), rng.choice(HUBERS)))
+        metas.append(dt)
+    exp = spec_expected(ctx, cases)
+    for (cfg, fc, ob, alpha, huber), e, dt in zip(cases, exp, metas):
+        sites = int_overflow_sites(cfg, fc, ob, dt)
+
+        wide = {}
+
+        def tagger(i, fn, sites=sites, args=(fc, ob, cfg, alpha, huber), e=e, wide=wide):
+            """the defect tag only where an integer intermediate provably leaves the dtype AND the same values stored as
+            int64 give the expected score"""
+            hit = [k for k in ("stand-in", "square", "difference") if sites[i][k] and (k == "stand-in" or fn in PHI_FUNCS)]
+            if not hit:
+                return {}
+            if not wide:
+                wide.update(impl_all(*args, dtypes=("int64", "int64")))
+            w = wide[fn]
+            if isinstance(w, Exception) or not core.close(w.ravel()[i], e[fn][i]):
+                return {}
+            return {"defect": INT_DEFECT, "overflow_sites": "+".join(hit)}
+        for st in sites:
+            ctx.tag("int-range:" + ("+".join(k for k in st if st[k]) or "inside-dtype"))
+        impl = impl_all(fc, ob, cfg, alpha, huber, dtypes=(dt, dt))
+        compare_batch(ctx, "narrow-int-dtype-range", "property", cfg, fc, ob, alpha, huber, impl, e, forms_tag="scalar",
+                      extra=dtype_extra(cfg, dt, dt), tagger=tagger)
+
+
 def oracle(ctx, boost):
     oracle_integral(ctx, boost)
     oracle_murphy(ctx, boost)
     oracle_relations(ctx, boost)
     oracle_consistent(ctx, boost)
     oracle_mixed(ctx)
+    oracle_dtypes(ctx, boost)
+    oracle_consistent_dtypes(ctx, boost)
+    oracle_int_range(ctx, boost)
 
 
 # ------------------------------------------------------------------------------------------------ replay
@@ -850,11 +1199,12 @@ def replay(ctx, payload):
     ctx2 = core.Ctx("C10", "quick", 0)
     if "x" in case and "ends" in case and "shape" in case:
         ends = [float(core.parse_fl(s)) for s in case["ends"]]
-        cfg = {"shape": case["shape"], "ends": ends, "dims": [()] * len(ends)}
+        cfg = {"shape": case["shape"], "ends": ends, "dims": [()] * len(ends), "int_forms": bool(case.get("int_forms", False))}
         x, y = float(Fraction(case["x"])), float(Fraction(case["y"]))
         alpha, huber = float(Fraction(case["alpha"])), float(Fraction(case["huber"]))
         fc, ob = [[x]], [[y]]
-        impl = impl_all(fc, ob, cfg, alpha, huber)
+        dts = (case["fcst_dtype"], case["obs_dtype"]) if "fcst_dtype" in case else None      # storage dtypes of the data
+        impl = impl_all(fc, ob, cfg, alpha, huber, dtypes=dts)
         if sig == "weight-one-differs-from-standard-score":
             r = core.run_driver("C10spec", [{"op": "c10.std", "args": {"x": S(x), "y": S(y), "alpha": S(alpha), "huber": S(huber)}}])[0]
             exp = {n: [r[n]] for n in FUNCS}
@@ -869,7 +1219,10 @@ def replay(ctx, payload):
         cfg["ends"] = [e if isinstance(e, list) else float(core.parse_fl(e) if isinstance(e, str) else e) for e in cfg["ends"]]
         fc, ob = np.array(case["fcst"], dtype=float), np.array(case["obs"], dtype=float)
         alpha, huber = float(case["alpha"]), float(case["huber"])
-        impl = impl_all(fc, ob, cfg, alpha, huber)
+        dts = (case["fcst_dtype"], case["obs_dtype"]) if "fcst_dtype" in case else None
+        if case.get("int_forms"):
+            cfg["int_forms"] = True
+        impl = impl_all(fc, ob, cfg, alpha, huber, dtypes=dts)
         if sig.startswith("exception:"):
             return any(isinstance(v, Exception) for v in impl.values())
         if sig.startswith("missing-"):
@@ -877,7 +1230,7 @@ def replay(ctx, payload):
         mask = np.isnan(fc) | np.isnan(ob)
         exp = spec_expected(ctx2, [(cfg, np.where(mask, 0.0, fc), np.where(mask, 0.0, ob), alpha, huber)])[0]
         compare_batch(ctx2, "replay", "property", cfg, np.where(mask, 0.0, fc), np.where(mask, 0.0, ob), alpha, huber,
-                      impl_all(np.where(mask, 0.0, fc), np.where(mask, 0.0, ob), cfg, alpha, huber), exp)
+                      impl_all(np.where(mask, 0.0, fc), np.where(mask, 0.0, ob), cfg, alpha, huber, dtypes=dts), exp)
         return bool(ctx2.failures)
     if "a" in case and "fcst" in case:      # relation batches: rerun the relations on this one batch
         fc, ob = np.array(case["fcst"], dtype=float), np.array(case["obs"], dtype=float)
@@ -899,6 +1252,15 @@ def replay(ctx, payload):
                     if np.any(v < -1e-9) or np.any(np.abs(v[fc == ob]) > 1e-9):
                         return True
         return False
+    if "fn" in case and "fam" in case and "fcst_dtype" in case:      # consistent_* on typed storage
+        case = {k: v for k, v in case.items() if k != "position"}
+        rows = None
+        if "ends" in case:
+            fn, p = case["fn"], float(case["param"])
+            rows = core.run_driver("C10spec", [{"op": "c10.spec", "args": {
+                "shape": case["fam"][2:], "ends": case["ends"], "x": S(x), "y": S(y), "alpha": S(p if fn != "huber" else 0.5),
+                "huber": S(p if fn == "huber" else 1.0)}} for x, y in zip(case["fcst"], case["obs"])])
+        return cons_typed_check(ctx2, case, rows)
     if "fn" in case and "fam" in case:
         import scores.continuous as scc
         gm, pm = menu_funcs()
